@@ -22,7 +22,7 @@ META = {
     'bounds': {'quick': 'assignment: N<=4 frames, K<=5 centers (arbitrary tokens, duplicates allowed); find_cluster_centers N<=4, '
                         '<=3 labels; partition: every composition of N<=6 into trajectory lengths; partition_indices: 3 '
                         'trajectories of UNBOUNDED symbolic length; compute_batches: <=3 lengths, unbounded values',
-               'thorough': 'assignment N<=5,K<=6; find_cluster_centers N<=5; partition N<=7; partition_indices 4 trajectories'},
+               'thorough': 'assignment N<=6,K<=7; find_cluster_centers N<=7, <=4 labels; partition N<=9 (all compositions); partition_indices / batches 6 trajectories'},
     'stubs': ['metric = uninterpreted function D over N+K tokens', 'trajectory with .xyz = token array subclass'],
     'assumptions': ['exact real arithmetic', 'values of the flat arrays are opaque tokens (fresh variables)'],
     'outside': ['batch_reassign / reassign (mdtraj, joblib, psutil I/O)'],
@@ -387,8 +387,8 @@ def jobs(tier):
 
     def add(func, name, **kw):
         J.append(dict(module='harness.C10', func=func, name=name, kwargs=kw, sig_prefix=func, deadline_s=dl))
-    for N in range(1, (4 if q else 5) + 1):
-        for K in range(1, (5 if q else 6) + 1):
+    for N in range(1, (4 if q else 6) + 1):
+        for K in range(1, (5 if q else 7) + 1):
             if q and N * K > 12:
                 continue
             add('assign_job', 'assign[N=%d,K=%d]' % (N, K), N=N, K=K)
@@ -396,13 +396,13 @@ def jobs(tier):
                 add('assign_job', 'assign[N=%d,K=%d,xyz]' % (N, K), N=N, K=K, xyz=True)
     add('assign_job', 'predict[N=3,K=2]', N=3, K=2, entry='predict')
     add('assign_job', 'predict[N=2,K=3]', N=2, K=3, entry='predict')
-    for N in range(1, (4 if q else 5) + 1):
-        for L in range(1, min(3, N) + 1):
+    for N in range(1, (4 if q else 7) + 1):
+        for L in range(1, min(3 if q else 4, N) + 1):
             add('fcc_job', 'find_centers[N=%d,L=%d]' % (N, L), N=N, L=L)
-    for n in range(1, (6 if q else 7) + 1):
+    for n in range(1, (6 if q else 9) + 1):
         for comp in compositions(n):
             add('partition_job', 'partition[%s]' % ','.join(map(str, comp)), lengths=comp, k=min(2, n))
-    for T in ((1, 2, 3) if q else (1, 2, 3, 4)):
+    for T in ((1, 2, 3) if q else (1, 2, 3, 4, 5, 6)):
         add('partition_indices_job', 'partition_indices[T=%d,unbounded]' % T, T=T)
         add('batches_job', 'compute_batches[T=%d,unbounded]' % T, T=T)
     return J
